@@ -261,9 +261,9 @@ pub const SUBS: &[Sub] = &[
 pub fn run(ctx: &Ctx) {
     run_regress(ctx, SUBS);
     drive_enum(ctx, &SUBS[0], sweep::cases().len() as u64);
-    drive_random(ctx, &SUBS[1], ctx.n(40_000, 2_000_000), 1600);
+    drive_random(ctx, &SUBS[1], ctx.n(40_000, 20_000_000), 1600);
     if !ctx.quick() && !ctx.failed() {
-        crate::fuzzing::drive_fuzz(ctx, "modules", 1_000_000);
+        crate::fuzzing::drive_fuzz(ctx, "modules", 300_000);
     }
 }
 
